@@ -554,6 +554,14 @@ func (l *IPFSLog) Join(otherLog iface.IPFSLog, size int) (iface.IPFSLog, error) 
 	wg := &sync.WaitGroup{}
 	wg.Add(newItems.Len())
 	var err error
+	var errLock sync.Mutex
+	setErr := func(inErr error) {
+		errLock.Lock()
+		if err == nil {
+			err = inErr
+		}
+		errLock.Unlock()
+	}
 
 	// TODO: use l.concurrency ?
 	for _, k := range newItems.Keys() {
@@ -562,17 +570,17 @@ func (l *IPFSLog) Join(otherLog iface.IPFSLog, size int) (iface.IPFSLog, error) 
 
 			e := newItems.UnsafeGet(k)
 			if e == nil || !e.Defined() {
-				err = errmsg.ErrLogJoinFailed
+				setErr(errmsg.ErrLogJoinFailed)
 				return
 			}
 
 			if inErr := l.AccessController.CanAppend(e, l.Identity.Provider, &CanAppendContext{log: l}); inErr != nil {
-				err = inErr
+				setErr(inErr)
 				return
 			}
 
 			if inErr := e.Verify(l.Identity.Provider, l.IO()); inErr != nil {
-				err = errmsg.ErrSigNotVerified.Wrap(inErr)
+				setErr(errmsg.ErrSigNotVerified.Wrap(inErr))
 				return
 			}
 		}(k)
